@@ -34,6 +34,7 @@ func init() {
 			{ID: "C06.12", Desc: "in the list splitter an escaped character is consumed before quotes and commas are interpreted (no-store behind ext=\"a\\\"b\")", Run: func(c *Ctx) { ruleC12_7(c); renameRule(c, "C12.7", "C06.12") }, MinSites: 1},
 			{ID: "C06.13", Desc: "Cache-Control is read through all of its field lines (no-store on a second line)", Run: func(c *Ctx) { ruleRLIST(c, "C06.13", "Cache-Control") }, MinSites: 1},
 			{ID: "C06.14", Desc: "validators are written onto a copy of the caller's header (a polluted request makes a later unconditional GET come back 304)", Run: func(c *Ctx) { ruleC02_3(c); renameRule(c, "C02.3", "C06.14") }, MinSites: 1},
+			{ID: "C06.15", Desc: "a body that fails while it is serialised leaves nothing in the store (no error of a call is overwritten unseen)", Run: func(c *Ctx) { ruleNoDeadErrorValues(c, "C06.15") }, MinSites: 1},
 		},
 	})
 }
